@@ -177,7 +177,7 @@ def run_unit(unit):
 
 
 def main(tier):
-    rep = common.Reporter(PROP, 'exploration', tier)
+    rep = common.Reporter(PROP, 'model_checking', tier)
     nmax = 7 if rep.tier == 'thorough' else 6
     units = []
     for total in range(1, nmax + 1):
